@@ -749,6 +749,20 @@ pub fn run(out: &mut Out, tier: &str, seed: u64, prop: &str) {
             }
         }
     }
+    // ---- (2c) a stray token where `and` / `or` / the end is expected: ASCII and not, alone, glued to a keyword, and FOLLOWED by a
+    //      blank, a parenthesis or a quote (the keyword probe measures the token; what follows decides which length it takes)
+    if prop == "C06" {
+        for prefix in ["os_name == 'a' ", "(os_name == 'a' ", "python_version >= '3.8' and os_name == 'a' ", "'x' in os_name "] {
+            for stray in ["\u{e9}", "and\u{e9}", "or\u{e9}", "\u{fc}", "x\u{301}", "\u{1F600}", "\u{65e5}\u{672c}", "a\u{e9}b", "\u{e9}\u{e9}\u{e9}", "and\u{1F600}", "\u{2013}", "andx", "x"] {
+                for follower in ["", " b", " os_name == 'b'", "(os_name == 'b')", "'b' == os_name", "\"b\" == os_name", ")", " )", "\t(", " \u{e9}"] {
+                    let text = format!("{prefix}{stray}{follower}");
+                    let pa = parse_case(out, &mut w, prop, "m", &text);
+                    let _ = pa;
+                    out.stat("c06.stray_token_cases");
+                }
+            }
+        }
+    }
     // ---- (3) hostile inputs -----------------------------------------------------------------------
     if prop == "C06" || prop == "C17" {
         let n = if big { 6000 } else { 1200 };
